@@ -43,10 +43,16 @@ var (
 	pow10u64Len = len(pow10u64)
 )
 
+// maxUint64Digits is math.MaxUint64 in decimal: a 20-digit literal fits iff it is not greater.
+const maxUint64Digits = "18446744073709551615"
+
 func (d *uintDecoder) parseUint(b []byte) (uint64, error) {
 	maxDigit := len(b)
 	if maxDigit > pow10u64Len {
 		return 0, fmt.Errorf("invalid length of number")
+	}
+	if maxDigit == pow10u64Len && string(b) > maxUint64Digits {
+		return 0, fmt.Errorf("number overflows uint64")
 	}
 	sum := uint64(0)
 	for i := 0; i < maxDigit; i++ {
